@@ -183,6 +183,9 @@ def replay(data):
     if data.get('kind') == 'authoropts':
         from . import authoropts
         return authoropts.replay(data)
+    if data.get('part') == 'api':
+        from . import c14
+        return c14.replay(data)
     if 'history' in data:
         from . import histcheck
         return histcheck.replay('C06', data)
@@ -334,4 +337,6 @@ def check(rep):
     # the gate along histories where the integration tips change between report and evaluation
     from . import histcheck
     histcheck.check(rep, 'C06')
+    from . import c14
+    c14.eval_api_part(rep, 'C06')
 
